@@ -25,7 +25,7 @@ import (
 )
 
 func init() {
-	pbt.Describe("cases = a module id (mostly valid) x a raw zip archive written by the harness with archive/zip CreateRaw/CreateHeader so that names and declared sizes are arbitrary: prefix exact / missing / case-varied / other version / without slash; names with '..' (up to three levels), leading '/', backslashes, empty, '.', trailing '/', '//' , reserved and Unicode elements, fold-colliding pairs across directories, go.mod in every case at the root and below, duplicates, directory entries (also duplicated, also clashing with files); declared sizes that differ from the content (shorter, longer), wrong CRC, declared sizes above 16 MiB for go.mod/LICENSE and totals above 500 MiB (header lies, tiny bodies) x a target directory that is absent, empty, non-empty or nested under missing parents. Every case runs in a fresh sandbox S/p1/p2/p3/P with the zip in P and the target below P. Oracle: CheckZip's valid/invalid lists and error == the reference entry classifier; Unzip succeeds iff the id is valid, CheckZip accepts, the target is absent or empty and every file entry reads back with its declared size and CRC (read by the harness through archive/zip); on success the extracted tree == the file entries (names minus prefix, contents), both inclusions; a non-empty target is refused and untouched; in every case nothing exists in S outside the target directory except the zip and the target's ancestors. Non-trivial: >=2 entries with the right prefix and (an entry rejected by a rule other than the prefix, or a lying size/CRC); or a successful extraction of >=2 files. Distinct by JSON rendering.",
+	pbt.Describe("cases = a module id (mostly valid) x a raw zip archive written by the harness with archive/zip CreateRaw/CreateHeader so that names and declared sizes are arbitrary: prefix exact / missing / case-varied / other version / without slash; names with '..' (up to three levels), leading '/', backslashes, empty, '.', trailing '/', '//' , reserved and Unicode elements, fold-colliding pairs across directories, go.mod in every case at the root and below, duplicates, directory entries (also duplicated, also clashing with files); declared sizes that differ from the content (shorter, longer), wrong CRC, declared sizes above 16 MiB for go.mod/LICENSE and totals above 500 MiB (header lies, tiny bodies) x a target directory that is absent, empty, non-empty or nested under missing parents. Every case runs in a fresh sandbox S/p1/p2/p3/P with the zip in P and the target below P. Oracle: CheckZip's valid/invalid lists and error == the reference entry classifier; Unzip succeeds iff the id is valid, CheckZip accepts, the target is absent or empty and every file entry reads back with its declared size and CRC (read by the harness through archive/zip); on success the extracted tree == the file entries (names minus prefix, contents), both inclusions; a non-empty target is refused and untouched; in every case nothing exists in S outside the target directory except the zip and the target's ancestors. Non-trivial: >=2 entries with the right prefix and (an entry rejected by a rule other than the prefix, or a lying size/CRC); or a successful extraction of >=2 files. Distinct by JSON rendering. 12% of the archives also carry, anywhere in their order, an entry named after another entry plus a work-file suffix (.tmp, ~, .bak, .part, .new, .lock, ...; as a file or a directory).",
 		"zipref entry classifier; archive/zip of the standard library decides whether an entry 'reads back with its declared size and CRC'", "'..' runs in names are at most three levels deep, so even a broken extractor stays inside the sandbox")
 }
 
@@ -164,6 +164,17 @@ func genCase(t *rapid.T) unzipCase {
 		if b := gen.CRCTwin(a); b != nil {
 			c.Entries = append(c.Entries, entry{Name: prefixFor("GOOD", c.Path, c.Version) + "twins/one.go", Content: a, DeclSize: -1, Deflate: gen.Chance(t, 50, "twindeflate")},
 				entry{Name: prefixFor("GOOD", c.Path, c.Version) + "a/two.go", Content: b, DeclSize: -1})
+		}
+	}
+	if gen.Chance(t, 12, "scratchname") && len(c.Entries) > 0 {
+		// a name an extractor might pick for its own scratch file next to another entry (the entry's name with a
+		// work-file suffix, as a file or as a directory), placed anywhere in the archive
+		of := c.Entries[gen.Uniform(t, len(c.Entries), "scratchof")]
+		if !strings.HasSuffix(of.Name, "/") {
+			suf := []string{".tmp", "~", ".bak", ".part", ".partial", ".new", ".lock", ".tmp/inner.go", ".0", ".download", "-tmp", ".swp"}[gen.Uniform(t, 12, "scratchsuf")]
+			ne := entry{Name: of.Name + suf, Content: []byte("scratch?\n"), DeclSize: -1}
+			at := gen.Uniform(t, len(c.Entries)+1, "scratchat")
+			c.Entries = append(c.Entries[:at], append([]entry{ne}, c.Entries[at:]...)...)
 		}
 	}
 	if hostile && gen.Chance(t, 15, "dupentry") && len(c.Entries) > 0 {
